@@ -402,7 +402,12 @@ def check_extract_class_name(fx, rep, rule):
             if not o(("is", last, "Some")):
                 return NONE
             return call("std::iter::Iterator::next", call("core::str::split", mk_payload(last, "Some", "0"), ("lit", "char", "$")))
-        bad, n = fc.compare_paths(res, ref, lambda st, out: out[1])
+        def rw_last(t):
+            # `split(c).next_back()` on a fresh Split is its last segment (clippy::double_ended_iterator_last)
+            if t[0] in ("call", "mcall") and t[1].endswith("DoubleEndedIterator::next_back") and t[2] and t[2][0][0] == "call" and t[2][0][1] == "core::str::split":
+                return call("std::iter::Iterator::last", t[2][0])
+            return None
+        bad, n = fc.compare_paths(res, ref, lambda st, out: fc.rewrite(out[1], rw_last), rw=rw_last)
         report_cmp(rep, rule, "%s/outer-simple/%s" % (rule, impl), b, res, bad,
                    "segment after the last '.', cut at the first '$' (outer simple class name)")
 
